@@ -173,6 +173,49 @@ fn backend(listener: TcpListener, scn: Scn, until: Instant) {
                 let _ = s.write_all(b"\x00\x01GARBAGE NOT HTTP\r\n\r\n\xff\xfe");
                 held.push(s);
             }
+            "continue_then_close" => {
+                // an interim 100, then the backend dies before any final response
+                if scn.k == 2 {
+                    // the interim response and the first bytes of the final head in ONE segment, then death
+                    let _ = s.write_all(b"HTTP/1.1 100 Continue\r\n\r\nHTTP/1.1 200 OK\r\nConte");
+                } else {
+                    let _ = s.write_all(b"HTTP/1.1 100 Continue\r\n\r\n");
+                }
+                let _ = s.flush();
+                if scn.k == 1 {
+                    // die at once, the interim response and the FIN travel together
+                    let _ = s.shutdown(Shutdown::Both);
+                    continue;
+                }
+                // let the proxy relay the interim response first: wait for the rest of the body
+                let mut got = body_seen;
+                let mut buf = [0u8; 4096];
+                let _ = s.set_read_timeout(Some(Duration::from_secs(3)));
+                while got < 64 {
+                    match s.read(&mut buf) {
+                        Ok(0) | Err(_) => break,
+                        Ok(n) => got += n,
+                    }
+                }
+                let _ = s.shutdown(Shutdown::Both);
+            }
+            "upgrade_then_close" => {
+                // 101, then the backend dies before any tunnelled byte
+                let _ = s.write_all(b"HTTP/1.1 101 Switching Protocols\r\nConnection: Upgrade\r\nUpgrade: websocket\r\n\r\n");
+                let _ = s.flush();
+                let _ = s.shutdown(Shutdown::Both);
+            }
+            "two_finals" => {
+                // two complete responses for ONE request on a keep-alive connection; the same
+                // connection then answers the next request properly
+                let stale = format!("HTTP/1.1 200 OK\r\nContent-Length: 20\r\n\r\nSTALE-STALE-STALE-ST");
+                let _ = s.write_all(format!("{full_cl}{stale}").as_bytes());
+                let _ = s.flush();
+                if read_request(&mut s).is_some() {
+                    let _ = s.write_all(b"HTTP/1.1 200 OK\r\nContent-Length: 20\r\n\r\nBBBBBBBBBBBBBBBBBBBB");
+                }
+                held.push(s);
+            }
             "early_response" => {
                 // answer right after the request head, without waiting for the body
                 let _ = s.write_all(full_cl.as_bytes());
@@ -227,6 +270,7 @@ struct Resp {
     body: usize,
     extra: usize,
     ms: u128,
+    b0: u8,
 }
 
 /// reads one response with a deadline; `acc` carries bytes over between requests
@@ -315,7 +359,8 @@ fn read_response(s: &mut TcpStream, acc: &mut Vec<u8>, settle: bool) -> Resp {
             if std::env::var("BB_DUMP").is_ok() {
                 eprintln!("DUMP {:?}", String::from_utf8_lossy(acc));
             }
-            let r = Resp { status, complete, eof, hang: hang && !complete && !eof, body, extra, ms: t0.elapsed().as_millis() };
+            let b0 = acc.windows(4).position(|w| w == b"\r\n\r\n").and_then(|p| acc.get(p + 4).copied()).unwrap_or(0);
+            let r = Resp { status, complete, eof, hang: hang && !complete && !eof, body, extra, ms: t0.elapsed().as_millis(), b0 };
             if complete {
                 acc.drain(..used);
             }
@@ -343,7 +388,44 @@ fn client(front: SocketAddr, scn: Scn) -> Vec<Resp> {
             let _ = s.write_all(&req.as_bytes()[..req.len() - 6]);
             out.push(read_response(&mut s, &mut acc, true));
         }
-        "early_response" | "continue100" | "hints103" | "expect100" => {
+        "upgrade_then_close" => {
+            let r = format!("GET /ws HTTP/1.1\r\nHost: {host}\r\nConnection: Upgrade\r\nUpgrade: websocket\r\n\r\n");
+            let _ = s.write_all(r.as_bytes());
+            out.push(read_response(&mut s, &mut acc, false));
+            // after the 101 the tunnel must end (EOF) since the backend is gone: wait for it
+            let t0 = Instant::now();
+            let mut buf = [0u8; 256];
+            s.set_read_timeout(Some(Duration::from_millis(100))).unwrap();
+            let mut eof = false;
+            let mut extra = 0usize;
+            while t0.elapsed() < DEADLINE {
+                match s.read(&mut buf) {
+                    Ok(0) => {
+                        eof = true;
+                        break;
+                    }
+                    Ok(n) => extra += n,
+                    Err(e) if e.kind() == std::io::ErrorKind::WouldBlock || e.kind() == std::io::ErrorKind::TimedOut => {}
+                    Err(_) => {
+                        eof = true;
+                        break;
+                    }
+                }
+            }
+            out.push(Resp { status: 0, complete: false, eof, hang: !eof, body: 0, extra, ms: t0.elapsed().as_millis(), b0: 0 });
+        }
+        "two_finals" => {
+            let _ = s.write_all(req.as_bytes());
+            let r1 = read_response(&mut s, &mut acc, true);
+            let ok = r1.complete && !r1.eof;
+            out.push(r1);
+            if ok {
+                acc.clear();
+                let _ = s.write_all(req.as_bytes());
+                out.push(read_response(&mut s, &mut acc, true));
+            }
+        }
+        "early_response" | "continue100" | "hints103" | "expect100" | "continue_then_close" => {
             // a request with a 64-byte body sent in two halves; the backend answers after the head
             // (early_response), or sends an interim 100 / 103 first
             let expect = if scn.kind == "expect100" { "Expect: 100-continue\r\n" } else { "" };
@@ -464,8 +546,8 @@ fn main() {
                 for (i, r) in rs.iter().enumerate() {
                     writeln!(
                         o,
-                        "res {id} {i} status={} complete={} eof={} hang={} body={} extra={} ms={}",
-                        r.status, r.complete as u8, r.eof as u8, r.hang as u8, r.body, r.extra, r.ms
+                        "res {id} {i} status={} complete={} eof={} hang={} body={} extra={} ms={} b0={}",
+                        r.status, r.complete as u8, r.eof as u8, r.hang as u8, r.body, r.extra, r.ms, r.b0
                     )
                     .unwrap();
                 }
